@@ -547,7 +547,12 @@ pub fn run_check(check: &Check, tier: Tier, seed: u64, threads: usize) -> Outcom
             nplans += plans.len();
             let r = run_family(fam, &plans, threads);
             rec.merge(r);
-            if !ctx.wants_another_round() || rec.violations.len() > 50_000 {
+            // keep memory bounded: beyond 20 000 stored violations (in plan order) only the count matters
+            if rec.violations.len() > 20_000 {
+                rec.count_n("violations-not-stored", (rec.violations.len() - 20_000) as u64);
+                rec.violations.truncate(20_000);
+            }
+            if !ctx.wants_another_round() {
                 break;
             }
             round += 1;
